@@ -58,6 +58,15 @@ func newWorld(cached bool, interval time.Duration, shards uint, closable bool) *
 	return w
 }
 
+// setCloseErr makes the (closable) recording reporter's Close return err
+func (w *world) setCloseErr(err error) {
+	if w.cached {
+		w.recC.closeErr = err
+	} else {
+		w.rec.closeErr = err
+	}
+}
+
 func (w *world) note(format string, args ...interface{}) {
 	w.mu.Lock()
 	w.trace = append(w.trace, fmt.Sprintf(format, args...))
@@ -174,7 +183,9 @@ func scenarioClosedReadAfterReport(c *Ctx, cached bool) {
 	w.inc(cx, "x.c", 1)
 	s := NewSched(nil)
 	lastVisit := ""
-	s.ParkOnT = func(th, l string) bool { return th == "P" && (l == "registry.pre-closed-read" || l == "registry.visit") }
+	s.ParkOnT = func(th, l string) bool {
+		return th == "P" && (l == "registry.pre-closed-read" || l == "registry.visit")
+	}
 	P := s.Spawn("P", func() { tally.VerifReportOnce(w.root) })
 	l1 := runUntil(s, P, func(l, a string) bool {
 		if l == "registry.visit" {
